@@ -22,6 +22,11 @@ def build(params):
     return world
 
 
+def run_narrow_path(params, known):
+    from .c09 import run_narrow_path as run
+    return run(params, known)
+
+
 def _scen(name, scripts, dev_bound=0, weight=1, **over):
     params = dict(scripts=scripts, devs=DEVS if dev_bound else ())
     params.update(over)
@@ -37,6 +42,8 @@ def scenarios(tier):
     term = ('terminate', 0)
     out = []
     out.append(_scen('A5-d1', {'A': [s5], 'B': []}, dev_bound=1, weight=10))
+    # back-pressure (bounded octets in flight each way), with termination: sequencing and whole messages still hold
+    out.append(dict(name='narrow-path', kind='enum', runner='run_narrow_path', params=dict(name='narrow-path', prop=PROP), weight=20))
     out.append(_scen('A9-d0', {'A': [('send', hexn(9))], 'B': []}, dev_bound=0, weight=5))
     out.append(_scen('A5+A1', {'A': [s5, s1], 'B': []}, dev_bound=0, weight=10))
     out.append(_scen('A5|B1', {'A': [s5], 'B': [s1]}, dev_bound=0, weight=30))
